@@ -80,8 +80,8 @@ func (c *Ctx) rulePlainStatusStores(rule string) {
 			where = "on a job still private to its constructor"
 		case submit[f] && s.value == "Queued":
 			where = "in a submit path (publication order is R16.1)"
-		case f == R.Completion && s.value == "Finished":
-			where = "in the completion callback (the job is Processing and owned by this pool goroutine)"
+		case s.value == "Finished" && c.allowedThroughCallers(f, func(g *Func) bool { return g == R.Completion }, 0):
+			where = "in the completion callback or a helper only it calls (the job is Processing and owned by this pool goroutine)"
 		}
 		c.Rep.check(where != "", rule, f.Short(), "plain store of job status "+s.value, c.P.pos(s.cs.Call), "plain store of "+s.value+" "+where,
 			fmt.Sprintf("the job status is set to %s with a plain store in %s, where another goroutine (user Close, dispatcher, completion) may change it concurrently: the transition must be a compare-and-swap (check-then-store loses one of the two updates)", s.value, f.Short()))
